@@ -108,6 +108,9 @@ Common == /\ l <= Len(Trace)
           /\ l' = l + 1
           /\ pstore' = store
 
+\* Repair touches no object file (recorded file-system calls of Repair: none of the mutating ones is aimed at an object file)
+RepairClean(E_) == "repair_mut" \in DOMAIN E_ => E_.repair_mut = 0
+
 \* every evaluated search remembers which identifiers were deleted since its evaluation
 Write(S) == /\ store' = S
             /\ reopened' = FALSE
@@ -169,7 +172,7 @@ Derive == /\ e.ev = "derive" /\ Common
 
 Collect == /\ e.ev = "collect" /\ Common /\ Pass
 
-Other == /\ e.ev \in {"end", "panic", "hang", "mutate", "args", "note", "crash", "fault", "corrupt", "shape", "names", "xput", "xdel", "xflush", "repair"} /\ Common /\ Pass
+Other == /\ e.ev \in {"end", "panic", "hang", "mutate", "args", "note", "crash", "fault", "corrupt", "shape", "names", "xput", "xdel", "xflush"} /\ Common /\ Pass
 
 \* FlushAll / FlushAllAndCommit / Commit
 FlushEv == /\ e.ev = "flush" /\ Common
@@ -184,6 +187,13 @@ DropEv == /\ e.ev = "drop" /\ Common
           /\ wpre' = store /\ wev' = l /\ unfl' = {} /\ due' = FALSE /\ slept' = 0
           /\ hdr' = IF e.cc = "ok" THEN [hdr EXCEPT !.cfg = e.cfg] ELSE hdr
           /\ UNCHANGED lastObs
+
+\* Repair on a live handle rebuilds the index entries: a search value evaluated before may have lost what it refers to
+\* (collecting it then fails, or leaves objects out) - it never comes to denote other objects (Conf_C20)
+RepairEv == /\ e.ev = "repair" /\ Common
+            /\ hands' = [h \in DOMAIN hands |-> [hands[h] EXCEPT !.gone = @ \cup DOMAIN store]]
+            /\ due' = FALSE
+            /\ UNCHANGED <<store, hdr, lastObs, reopened, wpre, wev, unfl, slept>>
 
 \* Flush(o) / FlushAndCommit(o): the accepted version of one object is on disk afterwards
 FlushOneEv == /\ e.ev = "flushone" /\ Common
@@ -215,10 +225,16 @@ AfterDamage(S, d) ==
   LET kept == [x \in DOMAIN S \ {d.rm[i] : i \in 1..Len(d.rm)} |-> S[x]]
   IN [x \in DOMAIN kept \cup {d.add[i][1] : i \in 1..Len(d.add)} |->
         IF x \in DOMAIN kept THEN kept[x] ELSE d.add[CHOOSE i \in 1..Len(d.add) : d.add[i][1] = x][2]]
+\* (the handle was closed before the damage: nothing is pending afterwards, and a new handle's timer starts from zero)
 DamageEv == /\ e.ev = "damage" /\ Common
-            /\ Write(AfterDamage(store, e))
+            /\ LET S == AfterDamage(store, e) IN
+               /\ store' = S /\ reopened' = FALSE
+               /\ hands' = [h \in DOMAIN hands |-> [hands[h] EXCEPT !.gone = @ \cup (DOMAIN store \ DOMAIN S)]]
+               /\ wpre' = store /\ wev' = l
+            /\ unfl' = {} /\ slept' = 0 /\ due' = FALSE
+            /\ UNCHANGED <<hdr, lastObs>>
 
-Next == l <= Len(Trace) /\ (Reset \/ Hdr \/ Put \/ Many \/ Del \/ DelAll \/ DelSearch \/ Reopen \/ Obs \/ Eval \/ Derive \/ Collect \/ Other \/ DamageEv \/ FlushEv \/ FlushOneEv \/ DropEv \/ TickEv \/ SwitchEv)
+Next == l <= Len(Trace) /\ (Reset \/ Hdr \/ Put \/ Many \/ Del \/ DelAll \/ DelSearch \/ Reopen \/ Obs \/ Eval \/ Derive \/ Collect \/ Other \/ DamageEv \/ FlushEv \/ FlushOneEv \/ DropEv \/ RepairEv \/ TickEv \/ SwitchEv)
 
 Spec == Init /\ [][Next]_vars
 
@@ -249,9 +265,9 @@ ReadsOK(o, S) ==
   /\ \A i \in 1..Len(o.get) :
        LET g == o.get[i] IN
        IF g.slot \in DOMAIN S
-       THEN /\ \A k \in {"g1", "gu", "g2"} : /\ g[k][1] = "ok" /\ o.recs[g[k][2]] = S[g.slot] /\ g[k][3] = g.slot
+       THEN /\ \A k \in {"g1", "gu", "g2", "gd", "gv"} \cap DOMAIN g : /\ g[k][1] = "ok" /\ o.recs[g[k][2]] = S[g.slot] /\ g[k][3] = g.slot
             /\ g.ex[1] = "ok" /\ g.ex[2] = TRUE
-       ELSE /\ \A k \in {"g1", "gu", "g2"} : g[k][1] # "ok"
+       ELSE /\ \A k \in {"g1", "gu", "g2", "gd", "gv"} \cap DOMAIN g : g[k][1] # "ok"
             /\ g.ex[2] = FALSE
 
 \* C02: every query of the sweep denotes exactly the matching objects of the
@@ -643,7 +659,7 @@ CrashOK(E_, Sm, Sp) ==
      /\ \A u \in DOMAIN Sm \cap DOMAIN Sp : u \in DOMAIN F                                               \* an update never loses the object
      /\ LoadFine(E_)
      /\ (LoadReports(E_) \/ o1.control = "corrupted") \/ AgreeD(o1, F, Sm)    \* detected, or index and files agree
-     /\ E_.repair = "ok" /\ o2.control = "ok"
+     /\ E_.repair = "ok" /\ o2.control = "ok" /\ RepairClean(E_)
      /\ FM(o2) = F /\ Readable(o2)                                          \* Repair touches no object file
      /\ Agree(o2, F)                                                        \* Repair rebuilds every entry from its file: exact agreement, no deviation
      /\ E_.close = "ok" /\ E_.load3 = "ok" /\ o3.control = "ok" /\ Agree(o3, F)
@@ -681,7 +697,7 @@ Conf_C05 ==
 DamageOK(E_, Sm, F) ==
   LET o1 == WithRecs(E_.obs1, E_.recs)
       o2 == WithRecs(E_.obs2, E_.recs)
-      o3 == WithRecs(E_.obs3, E_.recs)
+      o3 == IF "obs3" \in DOMAIN E_ THEN WithRecs(E_.obs3, E_.recs) ELSE o2
       indexed  == IF E_.rmschema THEN {} ELSE DOMAIN Sm \ {E_.unindex[i] : i \in 1..Len(E_.unindex)}
       diverged == indexed # DOMAIN F
   IN /\ E_.close = "ok"
@@ -691,9 +707,10 @@ DamageOK(E_, Sm, F) ==
      /\ o1.control \in {"ok", "corrupted"}
      /\ FM(o1) = F /\ Readable(o1)
      /\ ~diverged => Agree(o1, F)
-     /\ E_.repair = "ok" /\ o2.control = "ok" /\ Agree(o2, F)
+     /\ E_.repair = "ok" /\ o2.control = "ok" /\ Agree(o2, F) /\ RepairClean(E_)
      /\ FM(o2) = F /\ Readable(o2)                     \* no object file modified or deleted
-     /\ E_.load3 = "ok" /\ o3.control = "ok" /\ Agree(o3, F)
+     \* (a damage event marked "live" keeps the repaired handle in use: no third handle is opened)
+     /\ "obs3" \in DOMAIN E_ => (E_.load3 = "ok" /\ o3.control = "ok" /\ Agree(o3, F))
 Conf_C11 ==
   At => (E.ev = "damage" => DamageOK(E, pstore, store))
 
@@ -709,6 +726,9 @@ Would(w, S) ==
 OldOrNew(F, Sm, Sp) == \A u \in DOMAIN F : (u \in DOMAIN Sm /\ F[u] = Sm[u]) \/ (u \in DOMAIN Sp /\ F[u] = Sp[u])
                                              \/ (wev > 0 /\ Trace[wev].ev = "many" /\ \E i \in 1..Len(Trace[wev].batch) :
                                                     "after" \in DOMAIN Trace[wev].batch[i] /\ Trace[wev].batch[i].slot = u /\ Trace[wev].batch[i].after = F[u])
+\* an object the call was not deleting still has its file
+\* (asynchronous writes: unless it never had one - unfl = accepted, not flushed yet)
+NoLossF(F, Sm, Sp) == \A u \in DOMAIN Sm : (u \in DOMAIN Sp /\ u \notin unfl) => u \in DOMAIN F
 FaultOK(E_, Sm) ==
   LET o0 == WithRecs(E_.obs0, E_.recs)
       o1 == WithRecs(E_.obs1, E_.recs)
@@ -720,7 +740,7 @@ FaultOK(E_, Sm) ==
       noticed  == o0.control = "corrupted" \/ E_.load = "corrupted" \/ o1.control = "corrupted"
       restored == /\ E_.repair = "ok" /\ o2.control = "ok" /\ Readable(o2) /\ Agree(o2, FM(o2))
                   /\ E_.load3 = "ok" /\ o3.control = "ok" /\ Agree(o3, FM(o2))
-                  /\ 0 \notin DOMAIN FM(o2) /\ OldOrNew(FM(o2), Sm, Sp)
+                  /\ 0 \notin DOMAIN FM(o2) /\ OldOrNew(FM(o2), Sm, Sp) /\ NoLossF(FM(o2), Sm, Sp)
       \* Known finding (deviation CommitFault): a fault after the object file has been replaced (in the
       \* schema commit, or in a later object of a batch) makes the call fail although the write is applied
       \* in memory and on disk; a fresh handle then loads the old index.  What is still demanded:
@@ -729,14 +749,32 @@ FaultOK(E_, Sm) ==
       \* The stale values are those of the state BEFORE the interrupted call (wpre): a batch whose objects
       \* were all written and whose commit failed reports n objects and an error, so Sm already holds them.
       Pre      == IF wev > 0 THEN wpre ELSE Sm
-      devshape == /\ "CommitFault" \in Dev
-                  /\ Readable(o1) /\ 0 \notin DOMAIN FM(o1) /\ OldOrNew(FM(o1), Pre, Sp)
+      \* ... and it is only that finding when the fault fell where its signature says: after an object file of the call
+      \* had been replaced, or in the commit of the schema (asynchronous writes: the commit is the call's only writing)
+      sign     == ("at" \in DOMAIN E_) => (E_.at.obj >= 1 \/ E_.at.tgt = "sch" \/ hdr.cfg.async)
+      devshape == /\ "CommitFault" \in Dev /\ sign
+                  /\ Readable(o1) /\ 0 \notin DOMAIN FM(o1) /\ OldOrNew(FM(o1), Pre, Sp) /\ NoLossF(FM(o1), Pre, Sp)
                   /\ LoadFine(E_) /\ E_.repair = "ok" /\ o2.control = "ok" /\ FM(o2) = FM(o1)
                   /\ Agree(o2, FM(o2)) /\ E_.load3 = "ok" /\ o3.control = "ok" /\ Agree(o3, FM(o2))
   IN /\ E_.c # "panic" /\ "panic" \notin DOMAIN o0 /\ "panic" \notin DOMAIN o1
      /\ silent \/ (noticed /\ restored) \/ devshape
+\* A fault the call ABSORBED (it returned success): the live handle shows the state after the call, and a fresh handle
+\* finds that state too, or finds the damage and Repair restores agreement with the files - never a silent divergence.
+AbsorbedOK(E_, Sp) ==
+  LET o0 == WithRecs(E_.obs0, E_.recs)
+      o1 == WithRecs(E_.obs1, E_.recs)
+      o2 == WithRecs(E_.obs2, E_.recs)
+      o3 == WithRecs(E_.obs3, E_.recs)
+      durable  == E_.load = "ok" /\ Agree(o1, Sp) /\ o1.control = "ok"
+      noticed  == o0.control = "corrupted" \/ E_.load = "corrupted" \/ o1.control = "corrupted"
+      restored == /\ E_.repair = "ok" /\ o2.control = "ok" /\ Readable(o2) /\ Agree(o2, FM(o2))
+                  /\ E_.load3 = "ok" /\ o3.control = "ok" /\ Agree(o3, FM(o2)) /\ 0 \notin DOMAIN FM(o2)
+  IN /\ "panic" \notin DOMAIN o0 /\ "panic" \notin DOMAIN o1
+     /\ (o0.control # "corrupted") => Agree(o0, Sp)
+     /\ ~hdr.cfg.async => (durable \/ (noticed /\ restored))
 Conf_C06F ==
-  At => (E.ev = "fault" => (E.c # "ok" => FaultOK(E, store)))
+  At => (E.ev = "fault" => /\ (E.c # "ok" => FaultOK(E, store))
+                           /\ (E.c = "ok" => AbsorbedOK(E, store)))
 
 \* Drop (then Create on the same handle): the calls succeed; while nothing exists no object is reported; afterwards the
 \* directory holds the fresh schema and no object file.  (What later sweeps, flushes and Close must then show - an
